@@ -249,3 +249,31 @@ Definition check_icase (c : icase) : bool :=
 Inductive c01case := LCase (c : lcase) | ICase (c : icase).
 Definition check_case (c : c01case) : bool :=
   match c with LCase c => check_lcase c | ICase c => check_icase c end.
+
+(* ---- which ingester result each call consults (for the theorems over all histories) -------- *)
+Section TransformTrace.
+  Variable S : Type.
+  Variable ing_step : S -> S * (option N * option N * option errv).
+  Variable ing_cont : S -> errv -> bool.
+
+  Definition ingr := (option N * option N * option errv)%type.
+
+  (* transform.go:49: Read goes on to the ingester unless a non-ErrTransformFailed error is stored *)
+  Definition consults (ts : tstate) : bool :=
+    match lastErr ts with Some e => is_failed e | None => true end.
+
+  (* the ingester call an operation makes, if any: the ingester afterwards and what it returned *)
+  Definition consulted (st : tstate * S) (o : op) : option (S * ingr) :=
+    match o with
+    | OpRead => if consults (fst st) then Some (ing_step (snd st)) else None
+    | OpRaw => None
+    end.
+
+  (* [run], with every output paired with the ingester call made for it *)
+  Fixpoint runx (st : tstate * S) (ops : list op) : (tstate * S) * list (out * option (S * ingr)) :=
+    match ops with
+    | [] => (st, [])
+    | o :: r => let '(st1, x) := step S ing_step ing_cont st o in
+                let '(st2, xs) := runx st1 r in (st2, (x, consulted st o) :: xs)
+    end.
+End TransformTrace.
